@@ -137,9 +137,12 @@ def run_history(n, ndirs, ops, async_kill_rng=None):
         shutil.rmtree(root, ignore_errors=True)
 
 
-def oracle(n, ops, outs):
+def oracle(n, ops, outs, exists_after=None):
     fails = []
     for t, (op, o) in enumerate(zip(ops, outs)):
+        # an open that is refused (non-empty directory, reuse=False) must leave the stored examples alone
+        if op['k'] == 'open' and o == 'refused' and exists_after is not None and not exists_after[t][op['dir']]:
+            fails.append(('refused_open_removed_the_directory', {'t': t, 'op': op}))
         if op['k'] == 'get' and isinstance(o, dict):
             if 'val' in o and o['val'] != (None if op['i'] % 3 == 0 else op['i'] * 7 + 3):
                 fails.append(('corrupt_or_misplaced_value', {'t': t, 'op': op, 'out': o}))
@@ -171,12 +174,12 @@ def run(rep):
     replies = model.ask([model_request(*h) for h in hists])
     disagree, fails = [], []
     kills = sum(1 for _, _, ops in hists for o in ops if o['k'] == 'kill')
-    for (n, nd, ops), (outs, counts, exists, _), rp in zip(hists, results, replies):
+    for (n, nd, ops), (outs, counts, exists, ex_after), rp in zip(hists, results, replies):
         m_exists = [d is not None for d in rp.get('dirs', [])]
         outs_m = [({'val': -1} if (isinstance(o, dict) and 'val' in o and o['val'] is None) else o) for o in outs]
         if rp.get('outs') != outs_m or rp.get('calls') != counts or m_exists != exists:
             disagree.append((n, nd, ops, outs, counts, exists, rp))
-        for cl, det in oracle(n, ops, outs):
+        for cl, det in oracle(n, ops, outs, ex_after):
             fails.append((cl, det, n, nd, ops, outs))
     # asynchronous kills: the process dies at a random instant during a store; judged by the oracle only
     ah = []
@@ -222,9 +225,9 @@ def run(rep):
 
 
 def replay(j):
-    outs, counts, exists, _ = run_history(j['n'], j['ndirs'], j['history'])
+    outs, counts, exists, ex_after = run_history(j['n'], j['ndirs'], j['history'])
     rp = model.ask([model_request(j['n'], j['ndirs'], j['history'])])[0]
-    fails = oracle(j['n'], j['history'], outs)
+    fails = oracle(j['n'], j['history'], outs, ex_after)
     print(json.dumps({'outs': outs, 'calls': counts, 'dir_exists': exists, 'model': rp, 'oracle_failures': fails}, indent=1))
     outs_m = [({'val': -1} if (isinstance(o, dict) and 'val' in o and o['val'] is None) else o) for o in outs]
     if fails or rp.get('outs') != outs_m or rp.get('calls') != counts:
